@@ -18,6 +18,7 @@ type batchObj struct {
 	exp  *shapes.Rec
 	lid  int
 	rep  bool // pointer repeated from an earlier item
+	orig *batchObj
 }
 
 // opBatch executes InsertOrUpdateMany / InsertOrUpdateBulk.
@@ -31,12 +32,15 @@ func (s *Seq) opBatch(op *Op) {
 			objs = append(objs, &batchObj{item: it, obj: &shapes.Other{X: 1}})
 		case it.SameAs > 0 && it.SameAs-1 < len(objs):
 			prev := objs[it.SameAs-1]
-			objs = append(objs, &batchObj{item: it, obj: prev.obj, rec: prev.rec, lid: prev.lid, rep: true})
+			for prev.orig != nil {
+				prev = prev.orig
+			}
+			objs = append(objs, &batchObj{item: it, obj: prev.obj, rec: prev.rec, lid: prev.lid, rep: prev.rec != nil, orig: prev})
 		case it.Rec == nil:
 			continue
 		default:
 			if prev, dup := byLid[it.Lid]; dup {
-				objs = append(objs, &batchObj{item: it, obj: prev.obj, rec: prev.rec, lid: prev.lid, rep: true})
+				objs = append(objs, &batchObj{item: it, obj: prev.obj, rec: prev.rec, lid: prev.lid, rep: true, orig: prev})
 				continue
 			}
 			nan := ""
@@ -148,7 +152,7 @@ func (s *Seq) opBatch(op *Op) {
 	// commit the model: exactly the accepted chunks
 	var touched []int
 	for _, b := range accepted {
-		if b.rec == nil {
+		if b.rec == nil || b.rep {
 			continue
 		}
 		s.checkUUIDAfterWrite(b.rec, b.lid)
@@ -227,7 +231,7 @@ func (s *Seq) predictChunk(m *model.Model, chunk []*batchObj) (map[string]bool, 
 			ambiguous = false
 			continue
 		}
-		if b.rep && b.exp != nil {
+		if b.rep {
 			continue
 		}
 		nan := ""
